@@ -29,8 +29,10 @@ PARAM_NAMES = ["a", "b", "s", "n", "name", "d", "ok", "x", "arg0", "arg1", "coun
 # package-level identifiers that must be harmless: the ALIASED imports of the generated file and its locals
 HARMLESS = ["flag", "fmt", "ioutil", "log", "filepath", "sort", "strings", "tabwriter", "args", "list", "ctx", "logger",
             "x", "target", "color", "arguments", "fs", "runTarget", "handleError", "printName", "ret", "wrapFn", "cancel",
-            "copy", "print", "Version", "Answer"]
-# the generated file's unaliased imports (finding F7) and the predeclared identifiers it uses
+            "copy", "print", "Version", "Answer",
+            "os", "signal", "strconv", "syscall"]      # aliased in the generated file since 869bb8a
+# the imports of the generated file that were unaliased before 869bb8a (finding F7, repaired) and the
+# predeclared identifiers the generated file uses (known finding)
 IMPORT_NAMES = ["os", "signal", "time", "context", "strconv", "syscall"]
 PREDECL_USED = ["make", "len", "append", "recover", "error", "nil", "true", "string", "bool", "int", "iota", "uint8", "int64", "false"]
 
@@ -183,6 +185,11 @@ def gen_func(rng, name, recv, defect):
     return f
 
 
+def on_generic(pkg, f):
+    """a method of a generic type (its method expression T.M needs an instantiation)"""
+    return bool(f["recv"]) and any(t.get("tparams") for t in pkg["types"] if t["name"] == f["recv"][0])
+
+
 def gen_package(rng, size=None, simple=False):
     """simple: a few valid targets over string/int/bool only (base of the separate finding streams)"""
     nfiles = 1 if simple else rng.choice([1, 1, 2, 2, 3])
@@ -206,7 +213,7 @@ def gen_package(rng, size=None, simple=False):
         ntypes = rng.choice([0, 1, 1, 2, 3])
         gid = 0
         for _ in range(ntypes):
-            kind = rng.choice(["ns"] * 10 + ["fake"] * 3 + ["ns-unexported"] * 3 + ["struct", "struct", "int", "chain", "alias-ns"])
+            kind = rng.choice(["ns"] * 10 + ["fake"] * 3 + ["ns-unexported"] * 3 + ["ns-generic"] * 2 + ["struct", "struct", "int", "chain", "alias-ns"])
             nm = take(NS_NAMES)
             if nm is None:
                 break
@@ -217,11 +224,13 @@ def gen_package(rng, size=None, simple=False):
                     continue
                 taken.add(nm.lower())
                 kind = "ns"
-            if kind == "chain" and not [t for t in pkg["types"] if t["kind"] == "ns"]:
+            if kind == "chain" and not [t for t in pkg["types"] if t["kind"] == "ns" and not t.get("tparams")]:
                 kind = "struct"
             t = {"name": nm, "kind": kind, "file": fileof(), "group": None}
+            if kind == "ns-generic":
+                t["kind"], t["tparams"] = "ns", True
             if kind == "chain":
-                t["of"] = rng.choice([t2["name"] for t2 in pkg["types"] if t2["kind"] == "ns"])
+                t["of"] = rng.choice([t2["name"] for t2 in pkg["types"] if t2["kind"] == "ns" and not t2.get("tparams")])
             pkg["types"].append(t)
         # some types share one parenthesised declaration (same file)
         if len(pkg["types"]) >= 2 and rng.random() < 0.4:
@@ -276,11 +285,11 @@ def gen_package(rng, size=None, simple=False):
         if r < 0.8 and refable:
             cand = rng.choice(refable)
         else:
-            nonv = [f for f in pkg["funcs"] if not oracle_valid(pkg, f) and not f["tparams"] and not (f["recv"] and f["recv"][1])]
+            nonv = [f for f in pkg["funcs"] if not oracle_valid(pkg, f) and not f["tparams"] and not (f["recv"] and f["recv"][1]) and not on_generic(pkg, f)]
             if nonv:
                 cand = rng.choice(nonv)
         if cand is not None and rng.random() < 0.5:
-            nss = [t for t in pkg["types"] if t["kind"] == "ns" and exported(t["name"])]
+            nss = [t for t in pkg["types"] if t["kind"] == "ns" and exported(t["name"]) and not t.get("tparams")]
             twin = None
             if not cand["recv"] and nss:
                 t = rng.choice(nss)
@@ -297,14 +306,26 @@ def gen_package(rng, size=None, simple=False):
                     refable.append(twin)
         if cand is not None:
             spec = {"names": ["Default"], "values": [{"ref": ref_of(cand)}]}
-            shape = rng.choice(["plain", "plain", "paren", "grouped"])
+            shape = rng.choice(["plain", "plain", "paren", "grouped", "multi", "multi-block"])
             specs = [spec]
+            if shape in ("multi", "multi-block"):
+                others = [f for f in pkg["funcs"] if not f["tparams"] and not (f["recv"] and f["recv"][1]) and f is not cand and not on_generic(pkg, f)]
+                extra = [n for n in (take(["VarA", "VarB", "varC", "VarD"]) for _ in range(rng.choice([1, 2]))) if n]
+                vals = [{"ref": ref_of(rng.choice(others))} if others and rng.random() < 0.6 else {"lit": "7"} for _ in extra]
+                pos = rng.randrange(len(extra) + 1)
+                spec = {"names": extra[:pos] + ["Default"] + extra[pos:], "values": vals[:pos] + spec["values"] + vals[pos:]}
+                specs = [spec]
+                if shape == "multi-block":
+                    pre = [n for n in (take(["VarE", "VarF"]) for _ in range(2)) if n]
+                    post = [n for n in [take(["VarQ"])] if n]
+                    specs = ([{"names": pre, "values": [{"lit": str(i)} for i, _ in enumerate(pre)]}] if pre else []) + [spec] + \
+                        [{"names": [n], "values": [{"ref": ref_of(rng.choice(others))} if others else {"lit": "1"}]} for n in post]
             if shape == "grouped":
                 before = [{"names": [n], "values": [{"lit": rng.choice(['"1.0"', "42", "true"])}]}
                           for n in filter(None, [take(["Version", "Answer", "Level", "quiet", "debugMode"]) for _ in range(rng.choice([1, 2]))])]
                 after = [{"names": [n], "values": [{"lit": "7"}]} for n in filter(None, [take(["Jobs", "retries"])]) if rng.random() < 0.5]
                 specs = before + [spec] + after
-            pkg["vars"].append({"file": fileof(), "paren": shape != "plain", "specs": specs})
+            pkg["vars"].append({"file": fileof(), "paren": shape not in ("plain", "multi"), "specs": specs})
     # aliases
     if refable and rng.random() < 0.4:
         kvs = []
@@ -345,6 +366,14 @@ def gen_default_shape(rng, shape):
         paren = True
     elif shape == "ok-first":        # var Default, Z = a, 1
         specs = [{"names": ["Default", "VarZ"], "values": [ra, {"lit": "1"}]}]
+        paren = False
+    elif shape == "no-own-value":    # var Default, VarY = twoFuncs(): Default has no value of its own
+        specs = [{"names": ["Default", "VarY"], "values": [{"call": "twoFuncs"}]}]
+        paren = False
+        pkg["helpers"].append({"kind": "raw", "name": "twoFuncs", "file": 0,
+                               "text": "func twoFuncs() (func(), func()) { return nil, nil }\n"})
+    elif shape == "typed-no-value":  # var Default func()
+        specs = [{"names": ["Default"], "typed": "func()", "values": []}]
         paren = False
     else:
         raise ValueError(shape)
@@ -448,6 +477,8 @@ def render_ref(r):
 def render_value(v):
     if "lit" in v:
         return v["lit"]
+    if "call" in v:
+        return v["call"] + "()"
     if "ref" in v:
         return render_ref(v["ref"])
     return "map[string]interface{}{\n" + "".join('\t"%s": %s,\n' % (k, render_ref(r)) for k, r in v["map"]) + "}"
@@ -477,7 +508,8 @@ def render_package(pkg, pname):
             done_groups.add(t["group"])
             members = [x for x in pkg["types"] if x["group"] == t["group"]]
             bodies[t["file"]].append("type (\n" + "".join(
-                "\t%s %s\n" % (x["name"], ("%s" % x["of"]) if x["kind"] == "chain" else TYPE_UNDER[x["kind"]]) for x in members) + ")\n")
+                "\t%s%s %s\n" % (x["name"], "[T any]" if x.get("tparams") else "", ("%s" % x["of"]) if x["kind"] == "chain" else TYPE_UNDER[x["kind"]])
+                for x in members) + ")\n")
     for v in pkg["vars"]:
         lines = []
         for s in v["specs"]:
@@ -490,6 +522,9 @@ def render_package(pkg, pname):
             bodies[v["file"]].append("var " + lines[0] + "\n")
     for h in pkg["helpers"]:
         n = h["name"]
+        if h["kind"] == "raw":
+            bodies[h["file"]].append(h["text"])
+            continue
         text = {"func": "func %s() int { return 1 }\n", "var": "var %s = 3\n", "const": "const %s = 1\n", "type": "type %s struct{}\n"}[h["kind"]] % n
         if h["kind"] == "func" and n == "make":
             text = "func make(a ...string) error { return nil }\n"
@@ -543,14 +578,14 @@ def flat_param_names(f):
 
 def oracle_valid(pkg, f):
     """exported package-level function, or exported method of an (exported) type declared as
-    mg.Namespace; parameters: optional leading context.Context then only string/int/bool/
+    mg.Namespace that has no type parameters; parameters: optional leading context.Context then only string/int/bool/
     time.Duration; result nothing or a single error; not generic"""
     if not exported(f["name"]) or f["tparams"]:
         return False
     if f["recv"]:
         ts = [t for t in pkg["types"] if t["name"] == f["recv"][0]]
-        if not ts or ts[0]["kind"] != "ns" or not exported(ts[0]["name"]):
-            return False
+        if not ts or ts[0]["kind"] != "ns" or not exported(ts[0]["name"]) or ts[0].get("tparams"):
+            return False        # the generated program could not name a generic type without instantiating it
     ps = flat_param_types(f)
     if ps and ps[0] == "ctx":
         ps = ps[1:]
@@ -648,7 +683,8 @@ def coq_pkg(pkg, docs, pkgdoc):
         rs = coq_list(["{| rnames := %d; rkind_ := %s |}" % (g["names"], {"error": "RKError", "local": "RKLocal", "other": "RKOther"}[g["kind"]]) for g in f["res"]])
         ds.append("{| fname := %s; recv := %s; tparams := %s; params := %s; res := %s; fdoc := %s; fsyn := %s |}" % (
             coq_str(f["name"]), recv, coq_bool(f["tparams"]), ps, rs, coq_str(doc), coq_str(syn)))
-    ts = ["{| tname := %s; is_namespace := %s |}" % (coq_str(t["name"]), coq_bool(t["kind"] in ("ns", "alias-ns"))) for t in all_types(pkg)]
+    ts = ["{| tname := %s; is_namespace := %s; tgeneric := %s |}" % (coq_str(t["name"]), coq_bool(t["kind"] in ("ns", "alias-ns")), coq_bool(bool(t.get("tparams"))))
+          for t in all_types(pkg)]
     vs = []
     for v in all_vars(pkg):
         vs.append(coq_list(["{| vnames := %s; vtyped := %s; vvalues := %s |}" % (
